@@ -1,6 +1,6 @@
 """C07 — the query-result cache never serves stale or foreign results."""
 from ..common import *
-from .. import corr, tiered, qcache, verdict
+from .. import corr, tiered, qcache, verdict, conc
 
 MODULE = "KyroModel.Theorems.C07"
 TRUSTED = [
@@ -8,10 +8,71 @@ TRUSTED = [
     "model KyroModel/Tiered/QueryCache.lean (keyed LRU store with generation guard, requested-k, scope in the key, reverse invalidation by document, boundary invalidation with the exact decision `mustDrop` as specification); float decisions (similarity order, query-to-insert distances) are inputs computed by the harness in f64 independently of the engine's kernels; tie: qcache correspondence incl. boundary-stress vectors (dims 8..96, difference spread over prefix/tail, 2e-4..0.3 inside/outside the boundary)",
     "Lemmas/PrefixBound.lean (Mathlib, reals): the pre-filter's upper bounds dominate the exact quantities for every dimension and prefix length",
     "engine level: oracle only (the tiered model abstains on cached searches): every CacheHit of the real engine is matched to the stored result it is a prefix of and judged against the write log since",
-    "not modelled: float rounding inside the pre-filter (exercised near the boundary, 256-ulp band reported as ambiguous), the 64-bit hash of the quantised query (treated as injective), thread interleavings (the generation guard is proved on the sequential model; see assumptions)",
+    "not modelled: float rounding inside the pre-filter (exercised near the boundary, 256-ulp band reported as ambiguous), the 64-bit hash of the quantised query (treated as injective), thread interleavings beyond one writer against one searcher at lock granularity (the generation guard is proved on the sequential model; the engine's write-then-invalidate order is explored, see coverage.concurrent)",
 ]
 KINDS = {"c07-foreign-scope", "c07-wider-k", "c07-unexplained-hit", "c07-deleted-served", "c07-pre-overwrite-distance",
          "c07-omits-closer-write", "c07-omits-closer-write-band", "c07-stale-entry-kept", "panic", "harness"}
+
+
+# ---------------------------------------------------------------------------------------------
+# one searching thread against one writing thread (controlled scheduler, real engine)
+
+WRITERS = ["ins:5:0",        # a new document that becomes the nearest
+           "ins:1:9",        # overwrite: document 1 moves away (cached distance / rank is pre-overwrite)
+           "ins:2:0",        # overwrite: document 2 moves next to the query
+           "del:1", "bd:1,2", "um:1:7", "bl:5:0", "ins:5:0;del:5", "del:1;ins:1:0"]
+
+
+def conc_programs(thorough):
+    mx = 3000 if thorough else 400
+    lines = []
+    for w in WRITERS:
+        for srch in (["kn:1", "kn:1;kn:1"] if thorough else ["kn:1"]):
+            lines.append("explore t0=%s t1=%s post=kn:1;kf:1 mode=dfs bound=%d max=%d persist=0 snap=0 rot=0" % (w, srch, 3 if thorough else 2, mx))
+    if thorough:
+        for w in WRITERS[:4]:
+            lines.append("explore t0=%s t1=kn:1 t2=kn:1 post=kn:1;kf:1 mode=random seed=7 max=600 persist=0 snap=0 rot=0" % w)
+    return lines
+
+
+def conc_check(lines, rep):
+    """after every schedule of (writer || searcher) a sequential observer repeats the cacheable search and runs the same
+    query past the cache: the two answers must be the same ids in the same order"""
+    import concurrent.futures
+    chunks = [lines[i::8] for i in range(8)]
+    results = []
+    with concurrent.futures.ThreadPoolExecutor(max_workers=8) as ex:
+        for part in ex.map(lambda ch: conc.explore(ch) if ch else [], chunks):
+            results += part
+    runs = hist = 0
+    bad = []
+    for line, r in results:
+        if r is None:
+            rep.violation(rep.write_replay("harness_died.ops", "# engine=conc\n%s\n" % line), no_input=True)
+            continue
+        runs += r["runs"]
+        for h in r["histories"]:
+            hist += 1
+            m = re.search(r";post;kn:\d+=>([^!]*)!kf:\d+=>(.*)$", h["final"])
+            if h["final"] == "deadlock" or not m:
+                bad.append((line, "no post-state: %s" % h["final"][:120], h)); continue
+            if m.group(1) != m.group(2):
+                txt = "; ".join("T%d %s=>%s [%d,%d]" % (o["t"], o["op"], o["res"], o["inv"], o["ret"]) for o in sorted(h["ops"], key=lambda o: o["inv"]))
+                bad.append((line, "after every call returned, the cacheable search answers [%s] but a search past the cache answers [%s] -- %s" % (m.group(1), m.group(2), txt), h))
+    if bad:
+        line, txt, h = min(bad, key=lambda x: len(x[1]))
+        sig = {"engine": "conc", "kind": "c07-stale-after-race"}
+        kf = match_known("C07", sig)
+        if kf:
+            rep.known_finding(kf)
+        else:
+            p = rep.write_replay("c07-stale-after-race.ops", "# engine=conc\n# ORACLE FAILURE on the implementation (real engine, controlled schedule): %s\n# (%d such histories in this run)\n%s\n" % (txt, len(bad), line))
+            rep.violation(p)
+    return {"programs": len(lines), "executions": runs, "distinct_histories": hist, "stale_after_race": len(bad),
+            "rule": "writer (insert of a nearer document / overwrite away / overwrite nearer / delete / batch delete / metadata update / bulk "
+                    "load / insert+delete / delete+re-insert) against one cacheable search of a fixed query, every schedule at "
+                    "lock-acquisition granularity with preemption bound 2 (3 thorough); afterwards the cacheable search must answer "
+                    "exactly what the same search past the cache answers"}
 
 
 def run(tier, seed, replay):
@@ -45,10 +106,14 @@ def run(tier, seed, replay):
             pass
     # 2. engine level
     tcases = [ops] if eng == "tiered" else ([] if replay else [])
+    corpus_conc = []
     if not replay:
         d = os.path.join(CORPUS, "C07")
         for p in sorted(os.listdir(d)) if os.path.isdir(d) else []:
             e2, o2 = corr.read_replay(os.path.join(d, p))
+            if e2 == "conc":
+                corpus_conc += [l for l in o2 if l.startswith(("explore ", "replay "))]
+                continue
             (tcases if e2 == "tiered" else qcases).append(o2)
         tcases += [tiered.gen_qcache_case(rng, n_ops=(110 if thorough else 70)) for _ in range(1200 if thorough else 150)]
     hits = searches = 0
@@ -58,9 +123,15 @@ def run(tier, seed, replay):
         for k_ in ("cases", "ops", "validated"):
             stats[k_] += tstats[k_]
         stats["distinct"] |= tstats["distinct"]
+    ccov = {}
+    if eng == "conc":
+        ccov = conc_check([l for l in ops if l.startswith(("explore ", "replay "))], rep)
+    elif not replay:
+        ccov = conc_check(corpus_conc + conc_programs(thorough), rep)
     verdict.settle(rep, ok, info, findings, MODULE)
     proof_coverage(rep, info, "cd lean && lake build %s && lake env lean <#print axioms audit>" % MODULE, TRUSTED)
     rep.coverage.update({
+        "concurrent": ccov,
         "traces_validated_against_impl": stats["validated"],
         "disagreements_checked": stats["cases"],
         "evaluations": stats["ops"],
@@ -76,6 +147,7 @@ def run(tier, seed, replay):
     })
     rep.assumptions = ["the store-after-invalidate guarantee is proved on the sequential model (a store carrying generation g is refused "
                        "once any invalidation ran after g was read); the atomicity of the generation check with the map update "
-                       "relies on the implementation's write lock (re-check under the lock), not explored by a scheduler here",
+                       "relies on the implementation's write lock; the ORDER write-then-invalidate inside the engine's write paths is explored "
+                       "by the scheduler stage (coverage.concurrent) with one searcher against one writer",
                        "the 64-bit hash of the quantised query is treated as injective"]
     return rep.finish()
